@@ -72,6 +72,14 @@ func c15Spec(r *Rng, f time.Time, zone string) TISpec {
 		if r.Bool(0.3) {
 			sp.Times = append(sp.Times, [2]string{hm(fl), hm(fl.Add(time.Minute))})
 		}
+		// a range whose start is not before its end is rejected by the configuration loader
+		ok := sp.Times[:0]
+		for _, t := range sp.Times {
+			if t[0] < t[1] {
+				ok = append(ok, t)
+			}
+		}
+		sp.Times = ok
 	}
 	days := []string{"sunday", "monday", "tuesday", "wednesday", "thursday", "friday", "saturday"}
 	if r.Bool(0.4) {
@@ -316,9 +324,9 @@ func tiText(c *Config) string {
 func init() {
 	Register(&Prop{
 		ID: "C15", Level: "exploration", Gen: c15Gen, Check: c15Check,
-		Rule: "seeded run: 1-3 named time intervals with 1-2 entries each, generated around a focus instant (a daylight-saving transition of one of 25 IANA zones, a month end incl. 28/29 February, a year end, a midnight, or a random minute between 2001 and 2090): time ranges ending/starting minutes to hours around it (incl. 00:00 and 24:00 ends and one-minute ranges), weekday ranges, days of month (positive, negative, clamped, mixed), months, years, location set or defaulted; a child route uses them as mute and/or active intervals; one alert fires for the whole window of 6-30 h (thorough 24-72 h) that contains the focus; the group flushes every 47/61/73/127 s (phases sweep through the minutes) with repeat_interval 1 s; 6-20 GET /alerts/groups?muted=true probes. Every flush instant is judged by the reference calendar. Non-trivial: at least one flush was judged; distinct by abstract trace (the muted/notified pattern is part of it).",
-		Real: []string{"config loader (time_intervals parsing and validation)", "timeinterval (ContainsTime, Intervener)", "notify TimeActiveStage/TimeMuteStage + group marker", "dispatch timers", "api/v2 groups (mutedBy)", "webhook notifier"},
-		Stub: []string{"clock (synctest; the run is placed at the chosen calendar instant)", "receiver endpoint"},
+		Rule:        "seeded run: 1-3 named time intervals with 1-2 entries each, generated around a focus instant (a daylight-saving transition of one of 25 IANA zones, a month end incl. 28/29 February, a year end, a midnight, or a random minute between 2001 and 2090): time ranges ending/starting minutes to hours around it (incl. 00:00 and 24:00 ends and one-minute ranges), weekday ranges, days of month (positive, negative, clamped, mixed), months, years, location set or defaulted; a child route uses them as mute and/or active intervals; one alert fires for the whole window of 6-30 h (thorough 24-72 h) that contains the focus; the group flushes every 47/61/73/127 s (phases sweep through the minutes) with repeat_interval 1 s; 6-20 GET /alerts/groups?muted=true probes. Every flush instant is judged by the reference calendar. Non-trivial: at least one flush was judged; distinct by abstract trace (the muted/notified pattern is part of it).",
+		Real:        []string{"config loader (time_intervals parsing and validation)", "timeinterval (ContainsTime, Intervener)", "notify TimeActiveStage/TimeMuteStage + group marker", "dispatch timers", "api/v2 groups (mutedBy)", "webhook notifier"},
+		Stub:        []string{"clock (synctest; the run is placed at the chosen calendar instant)", "receiver endpoint"},
 		Assumptions: []string{"only the instants the simulated clock visits (flush ticks) are judged; the sweep over every instant and zone is a pure-function enumeration outside this technique", "the zone database of the sandbox is used by both the code under test and the reference"},
 	})
 }
